@@ -1,7 +1,8 @@
 (* C11 — events reach exactly the handlers subscribed at that moment.
    Property statements only; model in Model/SessionSub.v, proofs in Proofs/SessionSubProofs.v.
-   [final fl ops] is the session state after ANY operation history [ops] (subscribe in both forms, unsubscribe,
-   SUBSCRIBED / UNSUBSCRIBED / ERROR / revocation / EVENT / transport loss) under txaio flavour [fl];
+   [final fl ops] is the session state after ANY operation history [ops] (subscribe in both forms with every form of
+   SubscribeOptions, unsubscribe, SUBSCRIBED / UNSUBSCRIBED / ERROR / revocation / EVENT - arriving from the network or
+   delivered by the transport from inside send() -, transport loss) under txaio flavour [fl];
    a handler (and the Subscription object created for it) is named by the id of the SUBSCRIBE request that registered it.
    [expected_invocation ev e] = (handler, PUBLISHED args, PUBLISHED kwargs plus only this handler's requested details). *)
 From Coq Require Import NArith ZArith List Bool.
@@ -74,8 +75,8 @@ Proof. exact subscribed_appends. Qed.
 Print Assumptions C11_subscribed_appends.
 
 Theorem C11_unsubscribe_removes : forall fl s l o, lookup l (s_objs s) = Some o -> so_held o = true ->
-  (forall e, ~ In (ORaised e) (snd (step fl s (OpUnsubscribe l)))) ->
-  let s' := fst (step fl s (OpUnsubscribe l)) in
+  (forall e, ~ In (ORaised e) (snd (step fl s (OpUnsubscribe l [])))) ->
+  let s' := fst (step fl s (OpUnsubscribe l [])) in
   attached s' (so_id o) = remove_label l (attached s (so_id o)) /\
   (forall sid', sid' <> so_id o -> attached s' sid' = attached s sid') /\
   is_active s' l = false.
@@ -99,13 +100,13 @@ Proof. exact isolation. Qed.
 Print Assumptions C11_isolation.
 
 (* ---------------------------------------------------------------------------------------------------------------
-   3. after unsubscribe(h) has returned, h is never invoked again, for every continuation (including handlers that
-   re-enter the session, further subscriptions to the same id, replies in any order, transport loss).                *)
-Theorem C11_never_after_unsubscribe : forall fl ops1 l ops2,
+   3. after unsubscribe(h) has returned, h is never invoked again: not by what the transport delivers from inside the
+   send() of that very call ([rin]), not in any continuation (handlers that re-enter the session, further
+   subscriptions to the same id, replies in any order, transport loss).                                              *)
+Theorem C11_never_after_unsubscribe : forall fl ops1 l rin ops2,
   let s1 := final fl ops1 in
   unsub_returns s1 l ->
-  let s2 := fst (step fl s1 (OpUnsubscribe l)) in
-  ~ In l (concat (map invoked_labels (snd (run fl s2 ops2)))).
+  ~ In l (concat (map invoked_labels (snd (run fl s1 (OpUnsubscribe l rin :: ops2))))).
 Proof. exact never_after_unsubscribe. Qed.
 Print Assumptions C11_never_after_unsubscribe.
 
@@ -116,24 +117,24 @@ Print Assumptions C11_never_after_unsubscribe.
    subscription can always be unsubscribed while the transport is there.                                             *)
 Theorem C11_unsubscribe_iff_last : forall fl s l o,
   lookup l (s_objs s) = Some o -> so_held o = true ->
-  let outs := snd (step fl s (OpUnsubscribe l)) in
+  let outs := snd (step fl s (OpUnsubscribe l [])) in
   ((forall e, ~ In (ORaised e) outs) ->
      (labels (attached s (so_id o)) = [l] /\
         filter sends_unsubscribe outs = [OSent (MUnsubscribe (s_next s + 1) (so_id o))])
      \/ (labels (attached s (so_id o)) <> [l] /\ filter sends_unsubscribe outs = []))
-  /\ ((exists e, In (ORaised e) outs) -> fst (step fl s (OpUnsubscribe l)) = s /\ filter sends_unsubscribe outs = []).
+  /\ ((exists e, In (ORaised e) outs) -> fst (step fl s (OpUnsubscribe l [])) = s /\ filter sends_unsubscribe outs = []).
 Proof. exact unsubscribe_iff_last. Qed.
 Print Assumptions C11_unsubscribe_iff_last.
 
 Theorem C11_unsubscribe_only_source : forall fl s o,
-  (forall l, o <> OpUnsubscribe l) -> (forall ev, o <> OpEvent ev) ->
+  (forall l rin, o <> OpUnsubscribe l rin) -> (forall ev, o <> OpEvent ev) -> inline_free o = true ->
   filter sends_unsubscribe (snd (step fl s o)) = [].
 Proof. exact unsubscribe_only_source. Qed.
 Print Assumptions C11_unsubscribe_only_source.
 
 Theorem C11_unsubscribe_succeeds : forall fl ops l o, let s := final fl ops in
   lookup l (s_objs s) = Some o -> so_held o = true -> so_active o = true -> s_transport s = true ->
-  forall e, ~ In (ORaised e) (snd (step fl s (OpUnsubscribe l))).
+  forall e, ~ In (ORaised e) (snd (step fl s (OpUnsubscribe l []))).
 Proof. exact unsubscribe_succeeds. Qed.
 Print Assumptions C11_unsubscribe_succeeds.
 
@@ -143,7 +144,7 @@ Print Assumptions C11_unsubscribe_succeeds.
 Theorem C11_race_dropped : forall fl ops l o ev, let s := final fl ops in
   lookup l (s_objs s) = Some o -> so_held o = true -> so_active o = true -> s_transport s = true ->
   labels (attached s (so_id o)) = [l] -> e_sub ev = so_id o ->
-  let s' := fst (step fl s (OpUnsubscribe l)) in
+  let s' := fst (step fl s (OpUnsubscribe l [])) in
   In (so_id o) (s_ever s') /\ step fl s' (OpEvent ev) = (s', []).
 Proof. exact race_dropped. Qed.
 Print Assumptions C11_race_dropped.
@@ -161,6 +162,49 @@ Theorem C11_event_table_criterion : forall fl s ev, s_joined s = true ->
   (lookup (e_sub ev) (s_subs s) = Some [] -> step fl s (OpEvent ev) = (s, [])).
 Proof. exact event_table_criterion. Qed.
 Print Assumptions C11_event_table_criterion.
+
+(* ---------------------------------------------------------------------------------------------------------------
+   7. the REQUESTED event details.  [requested_details] is the specification (documentation of SubscribeOptions:
+   details=True -> keyword "details"; details_arg="name" -> that keyword; no options, details=None, details=False -> no
+   details); [norm_details] is what SubscribeOptions.__init__ computes.  For every argument combination the constructor
+   accepts they agree; the request subscribe() records - hence, by C11_subscribed_appends, the handler attached when
+   SUBSCRIBED arrives, whose [h_details] C11_exact_fanout's [expected_invocation] reads - carries the requested details,
+   and the options sent are the given ones.  (The correspondence run compares norm_details / wire_match / wire_retained
+   with the real SubscribeOptions and Subscribe.marshal over the whole argument grid.)                               *)
+Theorem C11_options_normalisation : forall o, opts_valid o = true -> norm_details o = requested_details (Some o).
+Proof. exact options_normalisation. Qed.
+Print Assumptions C11_options_normalisation.
+
+Theorem C11_subscribe_records_request : forall fl s sp o t, opts_ok o = true -> s_transport s = true ->
+  let rid := s_next s + 1 in
+  let s' := fst (step fl s (OpSubscribe sp o t [])) in
+  exists h, s_subreqs s' = s_subreqs s ++ [(rid, {| sr_topic := t; sr_handler := h; sr_group := rid |})] /\
+            h_details h = requested_details o /\ h_sig h = hs_sig sp /\ h_check h = hs_check sp /\ h_beh h = hs_beh sp /\
+            In (OSent (MSubscribe rid t (wire_match o) (wire_retained o))) (snd (step fl s (OpSubscribe sp o t []))).
+Proof. exact subscribe_records_request. Qed.
+Print Assumptions C11_subscribe_records_request.
+
+(* ---------------------------------------------------------------------------------------------------------------
+   8. replies delivered from inside transport.send() (in-process / loopback transports).  The request is on record
+   when the message goes out: a SUBSCRIBED / UNSUBSCRIBED that arrives before send() has returned is accepted like any
+   other - handler attached / id removed, request no longer pending, future completed, nothing raised.                *)
+Theorem C11_subscribed_inside_send : forall fl ops sp o t sid, let s := final fl ops in
+  opts_ok o = true -> s_transport s = true ->
+  let rid := s_next s + 1 in
+  let r := step fl s (OpSubscribe sp o t [MsgSubscribed rid sid]) in
+  attached (fst r) sid = attached s sid ++ [{| se_label := rid; se_topic := t; se_handler := mk_handler false o sp |}] /\
+  lookup rid (s_subreqs (fst r)) = None /\
+  (forall e, ~ In (ORaised e) (snd r)).
+Proof. exact subscribed_inside_send. Qed.
+Print Assumptions C11_subscribed_inside_send.
+
+Theorem C11_unsubscribed_inside_send : forall fl ops l o, let s := final fl ops in
+  lookup l (s_objs s) = Some o -> so_held o = true -> so_active o = true -> s_transport s = true ->
+  labels (attached s (so_id o)) = [l] ->
+  let r := step fl s (OpUnsubscribe l [MsgUnsubscribed (s_next s + 1)]) in
+  lookup (so_id o) (s_subs (fst r)) = None /\ In (ODoneU l (RNum 0)) (snd r) /\ (forall e, ~ In (ORaised e) (snd r)).
+Proof. exact unsubscribed_inside_send. Qed.
+Print Assumptions C11_unsubscribed_inside_send.
 
 (* ---------------------------------------------------------------------------------------------------------------
    non-vacuity and regressions (witness histories in Proofs/SessionSubProofs.v) *)
@@ -216,25 +260,47 @@ Qed.
 (* middle handler removed: returns normally, no UNSUBSCRIBE; later event reaches 1 and 3 only *)
 Example C11_never_after_nonvacuous :
   unsub_returns (final Tx w_three_ops) 2 /\
-  snd (run Tx (fst (step Tx (final Tx w_three_ops) (OpUnsubscribe 2))) [OpEvent (w_event [(0, KInt 5%Z)])])
+  snd (run Tx (fst (step Tx (final Tx w_three_ops) (OpUnsubscribe 2 []))) [OpEvent (w_event [(0, KInt 5%Z)])])
     = [[OInvoke 1 false [1%Z] [(0, KInt 5%Z)] true; OInvoke 3 false [1%Z] [(0, KInt 5%Z)] true]].
 Proof.
   split; [|reflexivity]. exists {| so_id := 71; so_active := true; so_held := true |}.
   split; [reflexivity|]. split; [reflexivity|]. intros e H. vm_compute in H. intuition discriminate.
 Qed.
 
+(* every way of (not) asking for details: no options / SubscribeOptions() / details=False / details=True /
+   details_arg="info", each handler a function accepting only keyword "a" plus what it asked for.  All five bodies run;
+   only the last two receive details, each under its own keyword. *)
+Example C11_requested_details_nonvacuous :
+  let outs := snd (step Tx (final Tx w_details_ops) (OpEvent (w_event [(0, KInt 1%Z)]))) in
+  ran_labels outs = [1; 2; 3; 4; 5] /\
+  map (fun x => map fst (snd x)) (invocations outs) = [[0]; [0]; [0]; [0; 3]; [0; 4]].
+Proof. vm_compute. auto. Qed.
+
+(* a loopback transport answers from inside send(): SUBSCRIBED then an EVENT before subscribe() returns (the handler
+   runs, the future completes afterwards); later the UNSUBSCRIBE of that last handler is answered, after a racing EVENT,
+   from inside its send() as well *)
+Example C11_inside_send_nonvacuous :
+  snd (run Tx init [OpSubscribe (w_sp BReturn) (w_opts (Some true) None) 1 [MsgSubscribed 1 71; MsgEvent (w_event [])];
+                    OpUnsubscribe 1 [MsgEvent (w_event []); MsgUnsubscribed 2; MsgEvent (w_event [])]]) =
+    [[OSent (MSubscribe 1 1 None None);
+      OInvoke 1 false [1%Z] [(3, KDet {| d_owner := 1; d_sub := 71; d_pub := 900; d_publisher := None; d_topic := 1;
+                                        d_retained := None |})] true;
+      ODone 1 (RSub 71)];
+     [OSent (MUnsubscribe 2 71); ORaised EProtocolError; ODoneU 1 (RNum 0)]].
+Proof. reflexivity. Qed.
+
 (* last handler: UNSUBSCRIBE sent; racing event dropped; after UNSUBSCRIBED the id is rejected; an id never held is rejected *)
 Example C11_last_and_race_nonvacuous :
-  let ops := [OpSubscribe (w_any None BReturn) 1; OpSubscribed 1 71; OpSubscribe (w_any None BReturn) 1; OpSubscribed 2 71;
-              OpUnsubscribe 1; OpUnsubscribe 2; OpEvent (w_event []); OpUnsubscribed 3; OpEvent (w_event []);
+  let ops := [w_sub BReturn None; OpSubscribed 1 71; w_sub BReturn None; OpSubscribed 2 71;
+              OpUnsubscribe 1 []; OpUnsubscribe 2 []; OpEvent (w_event []); OpUnsubscribed 3; OpEvent (w_event []);
               OpEvent {| e_sub := 5; e_pub := 1; e_args := []; e_kwargs := []; e_publisher := None; e_topic := None; e_retained := None |}] in
   snd (run Tx init ops) =
-    [[OSent (MSubscribe 1 1)]; [ODone 1 (RSub 71)]; [OSent (MSubscribe 2 1)]; [ODone 2 (RSub 71)];
+    [[OSent (MSubscribe 1 1 None None)]; [ODone 1 (RSub 71)]; [OSent (MSubscribe 2 1 None None)]; [ODone 2 (RSub 71)];
      [ODoneU 1 (RNum 1)]; [OSent (MUnsubscribe 3 71)]; []; [ODoneU 2 (RNum 0)]; [ORaised EProtocolError]; [ORaised EProtocolError]].
 Proof. reflexivity. Qed.
 
 Example C11_race_hypotheses_nonvacuous :
-  let s := final Tx [OpSubscribe (w_any None BReturn) 1; OpSubscribed 1 71] in
+  let s := final Tx [w_sub BReturn None; OpSubscribed 1 71] in
   lookup 1 (s_objs s) = Some {| so_id := 71; so_active := true; so_held := true |} /\ s_transport s = true /\
   labels (attached s 71) = [1] /\ ~ In 5 (s_ever s).
 Proof. cbv zeta. vm_compute. intuition discriminate. Qed.
